@@ -66,6 +66,10 @@ pub struct Scenario {
     /// (wave 17) a third of the handlers set `Access-Control-Allow-Origin` themselves: 1 = to the policy's origin, 2 = to another
     #[serde(default)]
     pub handlers_state_origin: u8,
+    /// (wave 18) a fifth of the handlers panic. The tree drops the connection without a response (nothing carries headers
+    /// then); if something does answer in their place, it is a response and the policy applies to it
+    #[serde(default)]
+    pub handlers_panic: bool,
 }
 
 const HDRS: [&str; 7] = ["Content-Type", "X-Custom", "Authorization", "X-Requested-With", "Accept", "*", "x_under.score~"];
@@ -207,7 +211,7 @@ pub fn generate(cfg: &RunCfg, out: &mut Outcome) -> Scenario {
     } else {
         Vec::new()
     };
-    Scenario { policy, app, reqs, earlier, handlers_state_origin: t::weighted(&[4, 2, 1]) as u8 }
+    Scenario { policy, app, reqs, earlier, handlers_state_origin: t::weighted(&[4, 2, 1]) as u8, handlers_panic: t::chance(1, 4) }
 }
 
 pub fn run(cfg: &RunCfg, direct: Option<&serde_json::Value>) -> Outcome {
@@ -304,6 +308,7 @@ fn execute(sc: &Scenario, out: &mut Outcome) {
     }
     let table = appgen::table(&sc.app);
     appgen::ERRORING.with(|e| e.set(true));
+    appgen::PANICKING.with(|e| e.set(sc.handlers_panic));
     match sc.handlers_state_origin {
         1 => {
             out.probe("c14.handler_states_the_policy_origin_itself");
@@ -392,7 +397,8 @@ fn execute(sc: &Scenario, out: &mut Outcome) {
     });
     let end = simcore::run();
     appgen::ERRORING.with(|e| e.set(false));
-    let panics = rt::panicked_tasks();
+    // the scripted handler panic is user code misbehaving, not the framework
+    let panics: Vec<_> = rt::panicked_tasks().into_iter().filter(|p| !p.4.starts_with("scripted handler panic")).collect();
     if let Some((_, _, file, _, msg)) = panics.first() {
         out.violate("no-panic", rt::panic_site(file, msg), format!("a server task panicked at {file}: {msg}"));
         return;
@@ -413,6 +419,12 @@ fn execute(sc: &Scenario, out: &mut Outcome) {
         let resp = match resp {
             Ok(x) => x,
             Err(e) => {
+                // the request went to a handler that panics: the connection is dropped, nothing is owed
+                let may_panic = sc.handlers_panic && matches!(e, RecvErr::Closed(_)) && crate::props::c01::expectations(&table, &r.method, &r.path).0.iter().any(|a| matches!(a, Some((id, _)) if id % 5 == 3));
+                if may_panic {
+                    out.probe("c14.handler_panicked_no_response");
+                    continue;
+                }
                 out.violate("answered", format!("{kind0}/no-response"), format!("{desc}: {}", format!("{e:?}").chars().take(100).collect::<String>()));
                 return;
             }
